@@ -58,6 +58,7 @@ TIERS = {
                                   Delims={"none", "c", "t", "s"}, Modes=MODES)),
         random=800,
         scale=16,
+        orders=dict(keep=360, depth=3),
         mechanism=dict(depth=4, tour_depth=3, dev_depth=4),
     ),
     "thorough": dict(
@@ -80,6 +81,7 @@ TIERS = {
                                   Delims={"none", "c", "t", "s"}, Modes=MODES)),
         random=8000,
         scale=96,
+        orders=dict(keep=6000, depth=4),
         mechanism=dict(depth=7, tour_depth=4, dev_depth=5),
     ),
 }
@@ -122,7 +124,7 @@ def clean_events(beh):
 def variant(i, seed):
     """concretisation of behaviour number i: dtype family, writer / reader entry points, observation schedule"""
     k = i + seed
-    return dict(fam=k % len(rc.FAMILIES), writer=(k // 2) % len(rc.WRITERS), reader=(k // 3) % len(rc.READERS),
+    return dict(fam=k % rc.GENERAL_FAMS, writer=(k // 2) % len(rc.WRITERS), reader=(k // 3) % len(rc.READERS),
                 sched="every" if k % 4 else "sparse",
                 # the handle objects: SFile, or a bare recfile.Recfile (no header: only the calls that need none);
                 # one object per handle id opened again and again, or (1 in 5) a new object for every open
@@ -187,6 +189,8 @@ def signature(rec, step, clauses, cls):
         c = "file=%s,chunk=%s,%s" % (cls.get("pre"), cls.get("compat"), cls.get("kind"))
     if any(t >= rc.BIG_TOK for t in e["chunk"]["rows"]):
         c += ",big_chunk"                 # more rows than one 16 MiB I/O block holds
+    if e["chunk"]["rows"] and e["chunk"]["descr"][1] in rc.MIXED_ORDERS:
+        c += ",byteorder_mixed_per_field"   # only the sub-array fields / only the scalar fields non-native
     return "%s|%s|%s" % (entry, clauses[0], c)
 
 
@@ -319,7 +323,8 @@ def random_events(rng, npaths=2, nhandles=2):
 
     def chunk(p):
         base = cur.get(p, "D") if rng.random() < 0.75 else rng.choice(rc.BASES)
-        order = "gt" if rng.random() < 0.15 else "lt"
+        x = rng.random()
+        order = "gt" if x < 0.09 else "vg" if x < 0.17 else "sg" if x < 0.21 else "lt"
         k = rng.choice([1, 1, 2, 3, 5])
         rows = list(range(tok[0], tok[0] + k))
         tok[0] += k
@@ -505,8 +510,8 @@ def run(ctx):
         rng = random.Random(ctx.seed * 15485863 + 3)
         behs = [behs[i] for i in sorted(rng.sample(range(len(behs)), T["scale"]))]
         # every (row-size family x block size) combination in turn
-        jobs = [(nid + i, ev, dict(variant(i, ctx.seed), fam=i % len(rc.FAMILIES),
-                                   bigkind=(i // len(rc.FAMILIES)) % rc.BIG_KINDS, sched="every"), 2, ctx.seed)
+        jobs = [(nid + i, ev, dict(variant(i, ctx.seed), fam=i % rc.GENERAL_FAMS,
+                                   bigkind=(i // rc.GENERAL_FAMS) % rc.BIG_KINDS, sched="every"), 2, ctx.seed)
                 for i, ev in enumerate(behs)]
         recs = quiet_pmap(exec_trace, jobs)
         for rr in recs:
@@ -517,6 +522,50 @@ def run(ctx):
         all_recs += recs
         ctx.note(scale_histories=len(recs),
                  scale_rows=sorted({rc.big_nrows(j[2]["fam"], "D", j[2]["bigkind"]) for j in jobs}))
+
+    # 5c. byte order per field class: histories in which chunks of one field structure come in every byte order - uniform
+    # (lt, gt) and MIXED (vg: only the sub-array fields big-endian; sg: only the scalar fields) - written to / appended to
+    # binary and text files through handles and path-level calls.  TLC checks on this alphabet that byte order never
+    # decides an append to a text file (TextOrderFree) next to the invariants; every behaviour is exported and replayed
+    # under the families that have numeric sub-array fields (rc.ORDER_FAMS)
+    if part("orders"):
+        O = T["orders"]
+        C = dict(Paths={1}, Handles={1}, ChunkIds={"a", "o", "v", "w"}, Hdrs={"none"}, Delims={"none", "c", "s"},
+                 Modes={"w", "r+"}, Sels={"all"}, MaxDepth=O["depth"])
+        acts = {"open", "hwrite", "hclose", "create", "append", "appendmissing"}
+        r = ctx.tlc("RecStoreMC.tla", what="byte order per field class: invariants, TextOrderFree + export (depth %d)" % O["depth"],
+                    cfg_text=cfg(constants=mc_constants(C, keep=True, export_at=O["depth"], acts=acts),
+                                 constraints=["BoundedHist", "Export"],
+                                 invariants=["SizeInv", "ConcatInv", "ConcatHistInv", "TextOrderFree"]),
+                    workers=1, coverage=False, timeout=3000)
+
+        def mixed_after_first(b):
+            # a chunk in a mixed order that is not the first chunk event (it lands on a file / handle that has rows)
+            cs = [e for e in b if e["chunk"]["rows"]]
+            return len(cs) >= 2 and any(e["chunk"]["descr"][1] in rc.MIXED_ORDERS for e in cs[1:])
+        behs = dedupe(r.records.get("BEH", []))
+        nall = len(behs)
+        behs = [b for b in behs if mixed_after_first(b)]
+        if len(behs) < 20:
+            raise MachineryError("only %d byte-order histories exported" % len(behs))
+        if len(behs) > O["keep"]:
+            # the text histories are the ones in which the order must not matter at all: two thirds of the budget
+            rng = random.Random(ctx.seed * 32452843 + 7)
+            txt = [b for b in behs if any(e["delim"] != "none" for e in b)]
+            bins = [b for b in behs if not any(e["delim"] != "none" for e in b)]
+            ntxt = min(len(txt), max(O["keep"] * 2 // 3, O["keep"] - len(bins)))
+            behs = sorted(rng.sample(txt, ntxt) + rng.sample(bins, min(len(bins), O["keep"] - ntxt)), key=json.dumps)
+        jobs = [(nid + i, ev, dict(variant(i, ctx.seed), fam=rc.ORDER_FAMS[(i + ctx.seed) % len(rc.ORDER_FAMS)], sched="every"),
+                 2, ctx.seed)
+                for i, ev in enumerate(behs)]
+        recs = quiet_pmap(exec_trace, jobs)
+        for rr in recs:
+            count_trace(ctx, rr)
+        rejects, _ = judge(ctx, recs, "judge byte-order histories (RecStoreTrace)")
+        ctx.log("%-40s %6d traces, %d rejected" % ("byte-order histories (mixed per field class)", len(recs), len(rejects)))
+        nid += len(recs)
+        all_recs += recs
+        ctx.note(order_histories_exported=nall, order_histories_replayed=len(recs))
 
     if part("mechanism") and only:
         mechanism(ctx)
@@ -548,6 +597,12 @@ def run(ctx):
                 "(header-less calls only), handles left open are closed at the end so that what they wrote is judged; the "
                 "model's ghost variable obj (last header held, stream position class) keeps apart for the tour the "
                 "histories an implementation could tell apart; "
+                "byte order is a dimension per FIELD CLASS: chunks come little-endian, big-endian and mixed (vg: only the "
+                "sub-array fields big-endian, sg: only the scalar fields) - every behaviour of length %d over chunks "
+                "{lt, gt, vg, sg} x {binary, ',', ' '} x {handle writes, path-level write / append / append-to-missing} in "
+                "which a mixed-order chunk is not the first one (%d exported, %d replayed under the families with numeric "
+                "sub-array fields; TLC checks TextOrderFree: no order decides an append to a text file), mixed orders "
+                "also in the random call sequences; "
                 "each under one of %d dtype families x %d writer x %d reader entry points, every file read back "
                 "by a fresh reader after every call (3 of 4 traces) or after the last call and after every rejected call; all "
                 "recorded traces judged by RecStoreTrace.tla; a case is distinct by (event list, concretisation), "
@@ -555,12 +610,16 @@ def run(ctx):
                 (T["behaviours"]["MaxDepth"], _fmt(T["behaviours"]), x.get("behaviours_exhaustive", 0), T["tour"]["MaxDepth"],
                  x.get("tour_edges", 0), x.get("tour_maximal_histories", 0), x.get("tour_histories_replayed", 0),
                  x.get("simulated_behaviours_replayed", 0), x.get("simulated_behaviours_exported", 0), T["simulate"]["depth"],
-                 T["random"], len(rc.FAMILIES), len(rc.WRITERS), len(rc.READERS)))
+                 T["random"], T["orders"]["depth"], x.get("order_histories_exported", 0), x.get("order_histories_replayed", 0),
+                 rc.GENERAL_FAMS, len(rc.WRITERS), len(rc.READERS)))
     ctx.note(models=[{"what": w, "constants": _fmt(c)} for w, c in T["models"]])
     ctx.assumptions = [
         "while a write-mode handle is open on a path the bytes on disk are unconstrained (stdio buffering); only reads through "
         "that handle and every reader after close are judged; two writers on one path at a time are outside the quantifier",
         "an append differing from the file only in byte order: rejected-unchanged or accepted value-correct (DESIGN 7)",
+        "byte order is modelled per field class (all scalar fields / all sub-array fields), not per single field; a mixed "
+        "order is a dtype of its own only in families with a numeric scalar and a numeric sub-array field (else it is one "
+        "of the uniform orders and counted as such); text rows of every order carry the same benign values",
         "a header passed with a non-first write: ignored, or the write rejected; never stored",
         "opening 'r+' a missing path through a handle: creating or rejected (the path-level append must create); opening "
         "'w+': creating or rejected, possibly truncating (the statement names no mode that must be openable)",
@@ -632,7 +691,8 @@ def dimension_guard(ctx, all_recs):
     """how many executed traces exercise each added dimension (accepted writes only); none -> the run is vacuous"""
     n = {"reopened_object_then_write": 0, "reopened_while_open": 0, "partial_read_then_write": 0,
          "bare_recfile_handle_writes": 0, "read_mode_handle_reads": 0, "dropped_after_appending_write": 0,
-         "big_chunk_written": 0}
+         "big_chunk_written": 0, "mixed_order_chunk_appended_to_text": 0, "mixed_order_chunk_appended_to_binary": 0,
+         "mixed_order_binary_file_created": 0}
     for r in all_recs:
         used, state, hit = {}, {}, set()
         lib = r["v"].get("lib", "sfile")
@@ -671,6 +731,21 @@ def dimension_guard(ctx, all_recs):
                     state[(h, "appended")] = True
         if any(t >= rc.BIG_TOK for e in r["done"] if e["res"]["err"] == "none" for t in e["chunk"]["rows"]):
             hit.add("big_chunk_written")
+        # accepted writes of a chunk whose byte order differs per field class (in a family where that is a dtype of its
+        # own), by what the target path held before the call (the observation of the previous call)
+        prev = None
+        for e in r["done"]:
+            d = e["chunk"]["descr"]
+            if (e["chunk"]["rows"] and e["res"]["err"] == "none" and d[1] in rc.MIXED_ORDERS
+                    and rc.order_effective(r["v"]["fam"], d[0], d[1])):
+                before = prev["obs"][e["p"] - 1] if prev is not None else {"st": "missing"}
+                after = e["obs"][e["p"] - 1]
+                if before["st"] == "ok" and e["op"] in ("append", "hwrite") and after["st"] == "ok":
+                    hit.add("mixed_order_chunk_appended_to_text" if before["delim"] != "none"
+                            else "mixed_order_chunk_appended_to_binary")
+                elif after["st"] == "ok" and after["delim"] == "none" and e["op"] in ("write", "append"):
+                    hit.add("mixed_order_binary_file_created")
+            prev = e
         for k in hit:
             n[k] += 1
     ctx.note(dimension_traces=n)
@@ -737,6 +812,8 @@ MECH_INVS = ["SizeLineInv", "SizeAfterInv", "CacheInv", "CppCountInv", "RowsInv"
 # deviating variant -> (mechanism invariant it must violate or None, clauses RecStoreTrace must name on its behaviours,
 #                       the small alphabet in which it shows within four calls)
 MECH_DEVIATIONS = {
+    # create a text file; append a chunk whose only non-native fields are the sub-array fields
+    "FixedNative": ("RowsInv", {"rows"}, dict(ChunkIds={"a", "v"}, Sels={"all"}, Delims={"c"})),
     "FixedCompat": ("RowsInv", {"not_rejected", "rows"}, dict(ChunkIds={"a", "n", "o"}, Sels={"all"})),
     "FixedCount": ("CppCountInv", {"read_rows"}, dict(ChunkIds={"a", "n"}, Sels={"all"})),
     "FixedMissing": (None, {"unexpected_error"}, dict(ChunkIds={"a"}, Sels={"all"})),
@@ -750,6 +827,10 @@ MECH_DEVIATIONS = {
 }
 
 
+# the alphabet a deviation needs to violate its invariant, where the base alphabet of the tier lacks it
+MECH_VIOLATES_ALPHABET = {"FixedNative": dict(ChunkIds={"a", "v"})}
+
+
 def mechanism(ctx):
     """RecStoreMech.tla: the implementation-shaped model of the append mechanism (SIZE line rewritten in place, the
     three cached row counts, the compatibility check).  Its own invariants are model-checked; refinement of the
@@ -757,8 +838,8 @@ def mechanism(ctx):
     by RecStoreTrace.tla like traces of the real code.  The repaired variant must pass both; each known deviation of
     the code (a constant) must be *seen* by both.  A lead generator, never a verdict about esutil."""
     M = TIERS[ctx.tier]["mechanism"]
-    base = dict(ChunkIds={"a", "b", "n", "o"}, Hdrs={"none", "h1"}, Delims={"none", "c"}, Modes=MODES, PathOps=True,
-                FixedCompat=True, FixedCount=True, FixedMissing=True, FixedClose=True, FixedSeek=True, FixedSizeNow=True, Sels=SELS)
+    base = dict(ChunkIds={"a", "b", "n", "o"} | (set() if ctx.quick else {"v"}), Hdrs={"none", "h1"}, Delims={"none", "c"}, Modes=MODES, PathOps=True,
+                FixedCompat=True, FixedCount=True, FixedMissing=True, FixedClose=True, FixedSeek=True, FixedSizeNow=True, FixedNative=True, Sels=SELS)
 
     # the deviations need four calls to show (create; open r+; write; read through the handle): smaller alphabet, deeper
     small = dict(Hdrs={"none"}, Modes={"w", "r+"})
@@ -775,7 +856,8 @@ def mechanism(ctx):
     def violates(dev, inv):
         # (stops at the violation: one worker, so that the state count does not depend on the schedule)
         r = ctx.tlc("RecStoreMech.tla", what="mechanism self-test: %s=FALSE violates %s" % (dev, inv),
-                    cfg_text=cfg(constants=consts(M["depth"], False, 99, **{dev: False}), invariants=[inv],
+                    cfg_text=cfg(constants=consts(M["depth"], False, 99, **dict(MECH_VIOLATES_ALPHABET.get(dev, {}), **{dev: False})),
+                                 invariants=[inv],
                                  constraints=["Bounded"]),
                     workers=1, allow_violation=True, coverage=False, timeout=3000)
         if inv not in r.violated:
@@ -814,9 +896,12 @@ def mechanism(ctx):
     jobs = [("inv", invariants, ())]
     jobs += [("violates " + dev, violates, (dev, inv)) for dev, (inv, _, _) in sorted(MECH_DEVIATIONS.items()) if inv]
     jobs += [("tour repaired", tour, ("repaired variant refines RecStore", M["tour_depth"]))]
+    # the alphabet in which FixedNative=FALSE is rejected, repaired: must refine (chunks of every byte order, text and binary)
+    jobs += [("tour repaired orders", tour, ("repaired variant refines RecStore (byte orders per field class)", M["tour_depth"]),
+              dict(small, ChunkIds={"a", "o", "v", "w"}, Sels={"all"}, Delims={"none", "c"}))]
     saved_traces, first_run = ctx.traces, len(ctx.tlc_runs)
     with ThreadPoolExecutor(4) as ex:
-        futs = {name: ex.submit(fn, *args) for name, fn, args in jobs}
+        futs = {j[0]: ex.submit(j[1], *j[2], **(j[3] if len(j) > 3 else {})) for j in jobs}
         for dev in sorted(MECH_DEVIATIONS):
             over = dict(MECH_DEVIATIONS[dev][2])
             deeper = over.pop("deeper", 0)
@@ -831,6 +916,11 @@ def mechanism(ctx):
         raise MachineryError("the repaired mechanism model does not refine RecStore: %d of %d behaviours rejected %s" %
                              (nrej, n, clauses))
     summary = {"repaired": {"behaviours": n, "rejected": 0}}
+    n, nrej, clauses = results["tour repaired orders"]
+    if nrej:
+        raise MachineryError("the repaired mechanism model does not refine RecStore on the byte-order alphabet: %d of %d "
+                             "behaviours rejected %s" % (nrej, n, clauses))
+    summary["repaired_byte_orders"] = {"behaviours": n, "rejected": 0}
     for dev, (_, want, _) in sorted(MECH_DEVIATIONS.items()):
         n, nrej, clauses = results["tour " + dev]
         if not nrej or not (want & set(clauses)):
